@@ -48,6 +48,7 @@ type propMeta struct {
 	HasGen       bool     `json:"has_gen"`
 	FuzzTargets  []string `json:"fuzz_targets"`
 	FuzzSeconds  int      `json:"fuzz_seconds"`
+	RaceWorker   bool     `json:"race_worker"`
 }
 
 type stats struct {
@@ -702,7 +703,7 @@ func buildWorker(meta *propMeta) {
 		defer func() { _ = syscall.Flock(int(lock.Fd()), syscall.LOCK_UN); lock.Close() }()
 	}
 	for _, race := range []bool{false, true} {
-		if race && !(meta.Race || meta.RaceQuick > 0 || meta.RaceThorough > 0) {
+		if race && !(meta.Race || meta.RaceQuick > 0 || meta.RaceThorough > 0 || meta.RaceWorker) {
 			continue
 		}
 		name := "worker"
